@@ -338,7 +338,7 @@ func (e *exec) loop() {
 		nThreadOpts := len(opts)
 		var earliest time.Duration = -1
 		for _, tm := range e.timers {
-			if !tm.armed {
+			if !tm.armed || tm.deadline >= never {
 				continue
 			}
 			if earliest < 0 || tm.deadline < earliest {
@@ -346,7 +346,7 @@ func (e *exec) loop() {
 			}
 		}
 		for _, t := range e.threads {
-			if !t.done && t.op != nil && t.op.kind == opSleep && t.op.until > e.now {
+			if !t.done && t.op != nil && t.op.kind == opSleep && t.op.until > e.now && t.op.until < never {
 				if earliest < 0 || t.op.until < earliest {
 					earliest = t.op.until
 				}
@@ -632,4 +632,33 @@ func BlockedOthers() []string {
 	}
 	sort.Strings(out)
 	return out
+}
+
+// MapKeys returns the keys of m in a deterministic order (Go randomises map
+// iteration per loop; un-owned it would break replay).
+func MapKeys[M ~map[K]V, K comparable, V any](site string, m M) []K {
+	keys := make([]K, 0, len(m))
+	for k := range m {
+		keys = append(keys, k)
+	}
+	sort.Slice(keys, func(i, j int) bool { return keyLess(keys[i], keys[j]) })
+	return keys
+}
+
+func keyLess(a, b any) bool {
+	switch x := a.(type) {
+	case string:
+		return x < b.(string)
+	case int:
+		return x < b.(int)
+	case int64:
+		return x < b.(int64)
+	case uint64:
+		return x < b.(uint64)
+	case int32:
+		return x < b.(int32)
+	case uint32:
+		return x < b.(uint32)
+	}
+	return fmt.Sprintf("%v", a) < fmt.Sprintf("%v", b)
 }
